@@ -47,6 +47,7 @@ const (
 	c18SiteGC = "resultStoreGC" // result store          : logger write in gc() (the service's own goroutine)
 	// the upkeep type getter the operator hands to the factory is user code too; it is called on background goroutines from
 	// three places (a panic there is raised INSIDE the stores' / coordinator's own critical sections)
+	c18SiteBuilder    = "payloadBuilder"         // final conditional / final recovery flow: BuildPayloads (Process goroutine)
 	c18SiteTGDequeue  = "typeGetter@dequeue"     // proposalQueue.Dequeue   (final conditional / final recovery flow, per queued proposal)
 	c18SiteTGMetadata = "typeGetter@metadata"    // metadataStore.AddProposals / RemoveProposals (proposal flows' post-processing)
 	c18SiteTGCoord    = "typeGetter@coordinator" // coordinator.ShouldProcess / FilterProposals  (every flow's pre-processing)
@@ -59,7 +60,7 @@ const (
 	c18SiteV2Check    = "v2CheckUpkeep"  // polling observer : runner.CheckUpkeep (head task loop)
 )
 
-var c18Sites = []string{c18SiteLog, c18SiteRecov, c18SiteGetter, c18SiteEvents, c18SitePipeline, c18SitePost, c18SiteGC, c18SiteTGDequeue, c18SiteTGMetadata, c18SiteTGCoord}
+var c18Sites = []string{c18SiteLog, c18SiteRecov, c18SiteGetter, c18SiteEvents, c18SitePipeline, c18SitePost, c18SiteGC, c18SiteBuilder, c18SiteTGDequeue, c18SiteTGMetadata, c18SiteTGCoord}
 var c18SitesV2 = []string{c18SiteV2Perform, c18SiteV2Stale, c18SiteV2CoordEnc, c18SiteV2Source, c18SiteV2ObsEnc, c18SiteV2Check}
 
 const c18GCLine = "Garbage collecting result store"
@@ -88,6 +89,8 @@ type c18Probe struct {
 	preCalls map[string]int
 	done     map[string]int // calls that returned normally since arm(), per site (progress of the open instance)
 
+	holdCtx    bool   // the held call returns only when its context ends (else: after holdNs, ignoring its context)
+	heldBackAt int64  // when it returned
 	holdSite   string // one call at this site is held in flight (it ignores its context, like a query that
 	holdAtCall int    // already has its rows) for holdNs of virtual time, then returns normally
 	holdNs     int64
@@ -118,8 +121,8 @@ func (p *c18Probe) doneCount(site string) int {
 	return p.done[site]
 }
 
-func (p *c18Probe) setHold(site string, atCall int, ns int64) {
-	p.holdSite, p.holdAtCall, p.holdNs = site, atCall, ns
+func (p *c18Probe) setHold(site string, atCall int, ns int64, untilCtx bool) {
+	p.holdSite, p.holdAtCall, p.holdNs, p.holdCtx, p.heldBackAt = site, atCall, ns, untilCtx, -1
 }
 
 func newC18Probe(site string, atCall, count int, coolDown int64) *c18Probe {
@@ -128,7 +131,10 @@ func newC18Probe(site string, atCall, count int, coolDown int64) *c18Probe {
 }
 
 // hit records one call at a site and panics when the schedule says so.
-func (p *c18Probe) hit(site string) {
+func (p *c18Probe) hit(site string) { p.hitCtx(context.Background(), site) }
+
+// hitCtx is hit for calls that are handed a context: a call held "until its context ends" waits for exactly that
+func (p *c18Probe) hitCtx(ctx context.Context, site string) {
 	p.mu.Lock()
 	now := int64(time.Since(p.t0))
 	p.calls[site]++
@@ -166,8 +172,27 @@ func (p *c18Probe) hit(site string) {
 	}
 	if hold {
 		p.heldOnce.Do(func() { close(p.held) })
-		time.Sleep(time.Duration(p.holdNs))
+		if p.holdCtx {
+			// a slow call that HONOURS cancellation: it returns only when its context ends (holdNs is the safety net that lets
+			// the case end if the context never does)
+			select {
+			case <-ctx.Done():
+			case <-time.After(time.Duration(p.holdNs)):
+			}
+		} else {
+			time.Sleep(time.Duration(p.holdNs))
+		}
+		p.mu.Lock()
+		p.heldBackAt = int64(time.Since(p.t0))
+		p.mu.Unlock()
 	}
+}
+
+// heldReturnedAt: virtual ns since t0 at which the held call returned (-1: it has not)
+func (p *c18Probe) heldReturnedAt() int64 {
+	p.mu.Lock()
+	defer p.mu.Unlock()
+	return p.heldBackAt
 }
 
 func (p *c18Probe) snapshot() map[string]int {
@@ -220,8 +245,8 @@ type c18LogProvider struct {
 	mu  sync.Mutex
 }
 
-func (f *c18LogProvider) GetLatestPayloads(context.Context) ([]ocr2keepers.UpkeepPayload, error) {
-	f.p.hit(c18SiteLog)
+func (f *c18LogProvider) GetLatestPayloads(ctx context.Context) ([]ocr2keepers.UpkeepPayload, error) {
+	f.p.hitCtx(ctx, c18SiteLog)
 	if f.work == 0 {
 		return nil, nil
 	}
@@ -254,8 +279,8 @@ type c18Events struct {
 	perform []ocr2keepers.TransmitEvent // confirmed perform events reported on every poll (for the repeating work ids)
 }
 
-func (f *c18Events) GetLatestEvents(context.Context) ([]ocr2keepers.TransmitEvent, error) {
-	f.p.hit(c18SiteEvents)
+func (f *c18Events) GetLatestEvents(ctx context.Context) ([]ocr2keepers.TransmitEvent, error) {
+	f.p.hitCtx(ctx, c18SiteEvents)
 	return f.perform, nil
 }
 
@@ -267,8 +292,8 @@ type c18Recov struct {
 	seq  uint64
 }
 
-func (f *c18Recov) GetRecoveryProposals(context.Context) ([]ocr2keepers.UpkeepPayload, error) {
-	f.p.hit(c18SiteRecov)
+func (f *c18Recov) GetRecoveryProposals(ctx context.Context) ([]ocr2keepers.UpkeepPayload, error) {
+	f.p.hitCtx(ctx, c18SiteRecov)
 	if !f.work {
 		return nil, nil
 	}
@@ -282,8 +307,8 @@ func (f *c18Recov) GetRecoveryProposals(context.Context) ([]ocr2keepers.UpkeepPa
 
 type c18Getter struct{ p *c18Probe }
 
-func (f *c18Getter) GetActiveUpkeeps(context.Context) ([]ocr2keepers.UpkeepPayload, error) {
-	f.p.hit(c18SiteGetter)
+func (f *c18Getter) GetActiveUpkeeps(ctx context.Context) ([]ocr2keepers.UpkeepPayload, error) {
+	f.p.hitCtx(ctx, c18SiteGetter)
 	return nil, nil
 }
 
@@ -300,7 +325,7 @@ type c18Pipeline struct {
 
 func (f *c18Pipeline) CheckUpkeeps(ctx context.Context, ps ...ocr2keepers.UpkeepPayload) ([]ocr2keepers.CheckResult, error) {
 	began := int64(time.Since(f.p.t0))
-	f.p.hit(c18SitePipeline)
+	f.p.hitCtx(ctx, c18SitePipeline)
 	defer f.p.pipelineReturned(began)
 	defer f.p.returned(c18SitePipeline)
 	if f.latency > 0 {
@@ -373,8 +398,8 @@ var c18BigOne = strBig(func() *string { s := "1"; return &s }())
 
 type c18StateUpdater struct{ p *c18Probe }
 
-func (f *c18StateUpdater) SetUpkeepState(context.Context, ocr2keepers.CheckResult, ocr2keepers.UpkeepState) error {
-	f.p.hit(c18SitePost)
+func (f *c18StateUpdater) SetUpkeepState(ctx context.Context, _ ocr2keepers.CheckResult, _ ocr2keepers.UpkeepState) error {
+	f.p.hitCtx(ctx, c18SitePost)
 	return nil
 }
 
@@ -480,7 +505,18 @@ func newC18V3Sys(t testing.TB, in c18Input) *c18Sys {
 		flowRep: map[string]string{"log": c18SiteLog, "recovery": c18SiteRecov, "sampling": c18SiteGetter, "coordinator": c18SiteEvents},
 		flowOf: map[string]string{c18SiteLog: "log", c18SiteRecov: "recovery", c18SiteGetter: "sampling", c18SiteEvents: "coordinator",
 			c18SitePipeline: "pipeline", c18SitePost: "post", c18SiteGC: "resultStore",
-			c18SiteTGDequeue: "final", c18SiteTGMetadata: "recovery", c18SiteTGCoord: "pre-processing"}}
+			c18SiteBuilder: "final", c18SiteTGDequeue: "final", c18SiteTGMetadata: "recovery", c18SiteTGCoord: "pre-processing"}}
+}
+
+// c18Builder builds payloads from coordinated proposals on the two final flows' tick goroutines (user code as well)
+type c18Builder struct{ p *c18Probe }
+
+func (b c18Builder) BuildPayloads(ctx context.Context, ps ...ocr2keepers.CoordinatedBlockProposal) ([]ocr2keepers.UpkeepPayload, error) {
+	b.p.hitCtx(ctx, c18SiteBuilder)
+	if err := ctx.Err(); err != nil {
+		return nil, err
+	}
+	return fakeBuilder{}.BuildPayloads(ctx, ps...)
 }
 
 // c18TypeGetter wraps the repository's upkeep type getter: a call is attributed to the place it comes from (innermost
@@ -523,7 +559,7 @@ type c18Node struct {
 // like NewNode, with the C18 fakes plugged in.
 func newC18Node(t testing.TB, in c18Input) *c18Node {
 	pr := newC18Probe(in.PanicSite, in.PanicAtCall, in.PanicCount, in.CoolDownNs)
-	pr.setHold(in.HoldSite, in.HoldAtCall, in.HoldNs)
+	pr.setHold(in.HoldSite, in.HoldAtCall, in.HoldNs, in.HoldCtx)
 	n := &c18Node{Probe: pr, Blocks: &fakeBlocks{}}
 	rc := runner.RunnerConfig{Workers: 4, WorkerQueueLength: 100, CacheExpire: 20 * time.Minute, CacheClean: 30 * time.Second}
 	if r := in.Runner; r != nil {
@@ -551,12 +587,15 @@ func newC18Node(t testing.TB, in c18Input) *c18Node {
 	}
 	fac := plugin.NewReportingPluginFactory(
 		lp, ev, n.Blocks,
-		&c18Recov{p: pr, work: in.Rounds, rng: NewRng(78)}, fakeBuilder{}, &c18Getter{p: pr},
+		&c18Recov{p: pr, work: in.Rounds, rng: NewRng(78)}, c18Builder{p: pr}, &c18Getter{p: pr},
 		&c18Pipeline{p: pr, shape: in.Shape, latency: time.Duration(in.LatencyNs), honorCtx: in.HonorCtx, ineligible: in.Ineligible},
 		rc, &recEncoder{}, tg, wg, &c18StateUpdater{p: pr}, log.New(&c18LogWriter{p: pr}, "", 0))
 	var cur ocr3types.ReportingPlugin[plugin.AutomationReportInfo]
 	n.Close, n.First = c18Build(in, pr, func(cfg string) func() error {
-		p, _, err := fac.NewReportingPlugin(context.Background(), ocr3types.ReportingPluginConfig{N: 4, F: 1, OffchainConfig: []byte(cfg)})
+		// the context of the creation call is not the life time of the instance: libocr's ends once the call has returned
+		cctx, ccancel := context.WithCancel(context.Background())
+		p, _, err := fac.NewReportingPlugin(cctx, ocr3types.ReportingPluginConfig{N: 4, F: 1, OffchainConfig: []byte(cfg)})
+		ccancel()
 		if err != nil {
 			t.Fatalf("NewReportingPlugin: %v", err)
 		}
